@@ -36,6 +36,30 @@ add('C05', "18 skeletons x a cut inserted at every position of every sequence x 
     "Trusted: TLC, projections. Groups are treated as transparent for cuts (as C05 lists the scopes).",
     "TLA+ spec PegSem (cut scopes) evaluated by TLC, exhaustive cut-placement universe, spec->code replay", "5 C05")
 
+add('C04', "Every (grammar, text) of the universe (seeded random grammars with cuts, failing-semantics retry family, left-recursion families, "
+    "cuts inside left-recursive rules, cut placements) is parsed under 12 configurations (memoization off for non-left-recursive grammars, "
+    "perlinememos 0.01/0.5/1/default, prune_memos_on_cut on/off, trace with output discarded, colorize, parseinfo); all outcomes (ok/fail, AST modulo "
+    "parseinfo, error class) must be equal; TLC's PegSem outcome for the same case is the independent reference recorded alongside.",
+    "Trusted: TLC, projections. The memo-schedule dimension is explored through real cache capacities (0.01..default per line), not yet through the "
+    "PegMachine hit/miss nondeterminism.", "TLA+ spec PegSem as reference + configuration-matrix replay (metamorphic agreement)", "5 C04")
+add('C06', "PegSem carries the action family as a behaviour constant (identity, tagging, FailedSemantics on a predicate, raise); TLC evaluates it for "
+    "every (grammar, text); model and generated parser are run with 16 concrete semantics objects (10 exception types, _default only, declared "
+    "parameters) and compared: value flow, alternatives after FailedSemantics, exception type/object reaching the caller, identity == no semantics, "
+    "@nomemo call counts == invocations (memoization-off count), memoized counts <= that.",
+    "Trusted: TLC, projections. Action call counts are compared with the memoization-off run of the same parser, not with a spec count.",
+    "TLA+ spec PegSem (Act family) evaluated by TLC + replay with generated semantics objects", "5 C06")
+add('C09', "(A) PegSem's lexical level (Skip fixpoint over whitespace, eol comments, comments; where it is applied; nameguard/namechars; ignorecase) "
+    "evaluated by TLC on 11 token grammars x 8 configurations x every layout (each gap kind in each slot) of token sequences; replayed into model and "
+    "generated parser with comment patterns given as directives and as settings. (B) spec/ConfigLayers.tla (TLC: Precedence, NoLeak) enumerates every "
+    "combination of compile/directive/parse layer for 8 settings; each point is replayed through compile+parse, tatsu.parse and generated parsers, "
+    "including a later parse without settings on the same object.",
+    "Trusted: TLC, projections, Python re. Comment regexes are written with (?m). Grammars whose patterns match whitespace are excluded as the property says.",
+    "TLA+ specs PegSem (lexical level) and ConfigLayers checked/evaluated by TLC + replay", "5 C09, 3.7")
+add('C11', "PegSem places the keyword check of @name rules after the body and before the action, as an ordinary failure; TLC evaluates 8 grammar "
+    "shapes x 1-3 keywords x @name on/off x ignorecase {off, directive, parse setting} x all texts over {i,f,x,space} up to the bound plus case variants, "
+    "a 13-keyword table and quoted keywords; replayed into model and generated parser with and without a tagging action.",
+    "Trusted: TLC, projections.", "TLA+ spec PegSem (IsKeyword before Act) evaluated by TLC, exhaustive family universe, replay", "5 C11")
+
 import sys
 checks = [C[p] for p in props if p in C]
 na = [{"property_id": p, "reason": "check not built yet in this round (build in progress; DESIGN.md section 10 gives the order)"} for p in props if p not in C]
